@@ -20,6 +20,8 @@ def run(chk):
     chk.rule("PRECEDE", "closed paths are cleaned before they are built, in both output modes")
     chk.rule("CONFINE", "every branch on using_polytree_ writes only owner / splits / recursive_split / polypath / OutPt::outrec (callees included)")
     chk.rule("OWNER.deepest-first", "CheckSplitOwner assigns `split` as owner only after split->splits has been searched (innermost owner)")
+    chk.rule("T.rect", "Rect::Contains(Rect) is closed inclusion on every ordering of the eight coordinates (the owner search uses it to pre-select "
+             "candidates: a child whose box shares a side with its parent's must not be rejected)")
     chk.rule("T.inside-vote", "Path1InsidePath2: a vertex outside / inside / on the candidate parent changes the count by +1 / -1 / 0; a count of "
              "<= -2 answers inside, >= 2 answers outside, only -1..1 use the bounding-box midpoint fallback (10 cells)")
     chk.rule("SPLITS.append-only", "OutRec::splits lists only grow: created where there was none, appended to, emptied only after their entries were "
@@ -36,6 +38,7 @@ def run(chk):
         e10.rule_splits_append_only(db, chk, cfg)
         from ..engines import e3_tables as e3
         e3.inside_vote_table(db, chk, cfg)
+        e3.rect_shortcuts(db, chk, cfg)       # the owner search rejects a candidate unless candidate.bounds.Contains(child.bounds): closed inclusion
         e6.rule_64_d(db, chk, cfg, only=("Clipper64::BuildTree64", "Clipper64::Execute"))
     n = len(cfgs)
     chk.floor("PIPELINE", 2 * n)
